@@ -561,3 +561,283 @@ Proof.
   destruct (nodes_from_seg_spec _ _ _ N) as (_ & _ & Hs).
   apply add_cand_edges_In. exact Hs.
 Qed.
+
+(* ------------------------------------------------------------------ *)
+(* IoU                                                                 *)
+(* ------------------------------------------------------------------ *)
+(* number of positions p with f1[p] = l1 and f2[p] = l2 *)
+Fixpoint inter (l1 l2 : Z) (f1 f2 : list Z) : Z :=
+  match f1, f2 with
+  | a :: r1, b :: r2 => (if (a =? l1) && (b =? l2) then 1 else 0) + inter l1 l2 r1 r2
+  | _, _ => 0
+  end.
+(* the value the property demands: |A n B| / |A u B| as an exact fraction; 0/1 without overlap *)
+Definition iou_value (l1 l2 : Z) (f1 f2 : list Z) : Z * Z :=
+  let i := inter l1 l2 f1 f2 in
+  if i =? 0 then (0, 1) else (i, count l1 f1 + count l2 f2 - i).
+
+Lemma pair_eqb_eq a b : pair_eqb a b = true <-> a = b.
+Proof.
+  destruct a as [a1 a2], b as [b1 b2]. unfold pair_eqb. cbn [fst snd].
+  rewrite andb_true_iff, !Z.eqb_eq. split; [intros [-> ->]; reflexivity|intros E; injection E; auto].
+Qed.
+
+Lemma inter_nonneg l1 l2 : forall f1 f2, 0 <= inter l1 l2 f1 f2.
+Proof.
+  induction f1 as [|a r1 IH]; intros [|b r2]; cbn [inter]; try lia.
+  specialize (IH r2). destruct ((a =? l1) && (b =? l2)); lia.
+Qed.
+
+Lemma inter_pos_In l1 l2 : forall f1 f2, 0 < inter l1 l2 f1 f2 -> In l1 f1 /\ In l2 f2.
+Proof.
+  induction f1 as [|a r1 IH]; intros [|b r2]; cbn [inter]; try lia.
+  intros H. destruct ((a =? l1) && (b =? l2)) eqn:E.
+  - apply andb_true_iff in E. destruct E as [E1 E2]. apply Z.eqb_eq in E1, E2. subst. split; now left.
+  - destruct (IH r2 ltac:(lia)). split; now right.
+Qed.
+
+Lemma overlap_count l1 l2 : l1 <> 0 -> l2 <> 0 -> forall f1 f2,
+  Z.of_nat (count_occ pair_dec (overlap_pairs f1 f2) (l1, l2)) = inter l1 l2 f1 f2.
+Proof.
+  intros H1 H2. induction f1 as [|a r1 IH]; intros [|b r2]; try reflexivity.
+  unfold overlap_pairs in *. cbn [combine filter inter fst snd]. specialize (IH r2).
+  destruct (Z.eqb_spec a l1) as [->|Ha]; destruct (Z.eqb_spec b l2) as [->|Hb]; cbn [andb].
+  - destruct (Z.eqb_spec l1 0); [contradiction|]. destruct (Z.eqb_spec l2 0); [contradiction|]. cbn [negb andb].
+    rewrite count_occ_cons_eq by reflexivity. lia.
+  - destruct (negb (l1 =? 0) && negb (b =? 0)); [rewrite count_occ_cons_neq by congruence|]; lia.
+  - destruct (negb (a =? 0) && negb (l2 =? 0)); [rewrite count_occ_cons_neq by congruence|]; lia.
+  - destruct (negb (a =? 0) && negb (b =? 0)); [rewrite count_occ_cons_neq by congruence|]; lia.
+Qed.
+
+Lemma overlap_nonzero f1 f2 pr : In pr (overlap_pairs f1 f2) -> fst pr <> 0 /\ snd pr <> 0.
+Proof.
+  unfold overlap_pairs. rewrite filter_In, andb_true_iff, !negb_true_iff, !Z.eqb_neq. tauto.
+Qed.
+
+Theorem compute_ious_spec : forall f1 f2 l1 l2 x,
+  In ((l1, l2), x) (compute_ious f1 f2) <->
+  l1 <> 0 /\ l2 <> 0 /\ 0 < inter l1 l2 f1 f2 /\
+  x = (inter l1 l2 f1 f2, count l1 f1 + count l2 f2 - inter l1 l2 f1 f2).
+Proof.
+  intros f1 f2 l1 l2 x. unfold compute_ious. rewrite in_map_iff. split.
+  - intros (pr & E & Hpr). apply nodup_In in Hpr. injection E as -> <-.
+    destruct (overlap_nonzero _ _ _ Hpr) as [H1 H2]. cbn [fst snd] in *.
+    rewrite (overlap_count l1 l2 H1 H2). repeat split; try assumption.
+    rewrite <- (overlap_count l1 l2 H1 H2).
+    apply (count_occ_In pair_dec) in Hpr. lia.
+  - intros (H1 & H2 & Hpos & ->). exists (l1, l2). cbn [fst snd].
+    rewrite (overlap_count l1 l2 H1 H2). split; [reflexivity|].
+    apply nodup_In. apply (count_occ_In pair_dec).
+    rewrite <- (overlap_count l1 l2 H1 H2) in Hpos. lia.
+Qed.
+
+Lemma compute_ious_keys f1 f2 : NoDup (map fst (compute_ious f1 f2)).
+Proof.
+  unfold compute_ious. rewrite map_map. cbn [fst]. rewrite map_id. apply NoDup_nodup.
+Qed.
+
+Lemma iou_get_unique d u v x :
+  In ((u, v), x) d -> (forall y, In ((u, v), y) d -> y = x) -> iou_get u v d = x.
+Proof.
+  intros Hin Hu. unfold iou_get.
+  destruct (find (fun e => pair_eqb (fst e) (u, v)) (rev d)) as [e|] eqn:F.
+  - apply find_some in F. destruct F as [He E]. apply pair_eqb_eq in E.
+    apply in_rev in He. destruct e as [k y]. cbn [fst snd] in *. subst k. now apply Hu.
+  - exfalso. apply in_rev in Hin. apply (find_none _ _ F) in Hin. cbn [fst] in Hin.
+    assert (pair_eqb (u, v) (u, v) = true) by now apply pair_eqb_eq. congruence.
+Qed.
+
+Lemma iou_get_none d u v : (forall y, ~ In ((u, v), y) d) -> iou_get u v d = (0, 1).
+Proof.
+  intros Hn. unfold iou_get.
+  destruct (find (fun e => pair_eqb (fst e) (u, v)) (rev d)) as [e|] eqn:F; [|reflexivity].
+  exfalso. apply find_some in F. destruct F as [He E]. apply pair_eqb_eq in E.
+  apply in_rev in He. destruct e as [k y]. cbn [fst] in E. subst k. exact (Hn y He).
+Qed.
+
+(* C18_iou on two flat frames *)
+Theorem iou_two_frames : forall f1 f2 l1 l2,
+  length f1 = length f2 -> l1 <> 0 -> l2 <> 0 ->
+  iou_get l1 l2 (compute_ious f1 f2) = iou_value l1 l2 f1 f2 /\
+  (inter l1 l2 f1 f2 = 0 <-> forall x, ~ In ((l1, l2), x) (compute_ious f1 f2)).
+Proof.
+  intros f1 f2 l1 l2 _ H1 H2. unfold iou_value. cbv zeta.
+  pose proof (inter_nonneg l1 l2 f1 f2) as Hnn.
+  destruct (Z.eqb_spec (inter l1 l2 f1 f2) 0) as [E0|Hne].
+  - assert (forall x, ~ In ((l1, l2), x) (compute_ious f1 f2)) as Hn.
+    { intros x Hx. apply compute_ious_spec in Hx. lia. }
+    split; [now apply iou_get_none|tauto].
+  - split.
+    + apply iou_get_unique.
+      * apply compute_ious_spec. repeat split; try assumption. lia.
+      * intros y Hy. apply compute_ious_spec in Hy. tauto.
+    + split; [contradiction|]. intros Hn. exfalso.
+      apply (Hn (inter l1 l2 f1 f2, count l1 f1 + count l2 f2 - inter l1 l2 f1 f2)).
+      apply compute_ious_spec. repeat split; try assumption. lia.
+Qed.
+
+Lemma get_iou_dict_In : forall fs e,
+  In e (get_iou_dict fs) <->
+  exists k f1 f2, nth_error fs k = Some f1 /\ nth_error fs (S k) = Some f2 /\ In e (compute_ious f1 f2).
+Proof.
+  induction fs as [|f1 r IH]; intros e.
+  - cbn. split; [intros []|]. intros (k & ? & ? & E & _). destruct k; discriminate.
+  - destruct r as [|f2 r'].
+    + cbn [get_iou_dict]. split; [intros []|]. intros (k & ? & ? & _ & E & _).
+      destruct k as [|[|k]]; discriminate.
+    + change (get_iou_dict (f1 :: f2 :: r')) with (compute_ious f1 f2 ++ get_iou_dict (f2 :: r')).
+      rewrite in_app_iff, IH. split.
+      * intros [H|(k & a & b & E1 & E2 & H)]; [exists O, f1, f2; auto|].
+        exists (S k), a, b. auto.
+      * intros (k & a & b & E1 & E2 & H). destruct k as [|k].
+        -- cbn in E1, E2. injection E1 as <-. injection E2 as <-. now left.
+        -- right. exists k, a, b. auto.
+Qed.
+
+(* with labels unique across frames the merged dict answers with the overlap in the right frame pair *)
+Lemma iou_get_frames : forall fs k f1 f2 u v,
+  unique_labels fs -> nth_error fs k = Some f1 -> nth_error fs (S k) = Some f2 ->
+  0 < u -> In u f1 -> v <> 0 ->
+  iou_get u v (get_iou_dict fs) = iou_value u v f1 f2.
+Proof.
+  intros fs k f1 f2 u v U E1 E2 Hu Hin Hv.
+  assert (forall y, In ((u, v), y) (get_iou_dict fs) -> In ((u, v), y) (compute_ious f1 f2)) as Hloc.
+  { intros y Hy. apply get_iou_dict_In in Hy. destruct Hy as (k' & a & b & Ea & Eb & Hy).
+    pose proof Hy as Hy'. apply compute_ious_spec in Hy'. destruct Hy' as (_ & _ & Hpos & _).
+    apply inter_pos_In in Hpos. destruct Hpos as [Hua _].
+    assert (k' = k) as -> by (eapply U; eauto). congruence. }
+  unfold iou_value. cbv zeta. pose proof (inter_nonneg u v f1 f2) as Hnn.
+  destruct (Z.eqb_spec (inter u v f1 f2) 0) as [E0|Hne].
+  - apply iou_get_none. intros y Hy. apply Hloc, compute_ious_spec in Hy. lia.
+  - apply iou_get_unique.
+    + apply get_iou_dict_In. exists k, f1, f2. repeat split; try assumption.
+      apply compute_ious_spec. repeat split; try assumption; lia.
+    + intros y Hy. apply Hloc, compute_ious_spec in Hy. tauto.
+Qed.
+
+Lemma existsb_pair e u v : existsb (pair_eqb (u, v)) e = true <-> In (u, v) e.
+Proof.
+  rewrite existsb_exists. split.
+  - intros (x & Hx & E). apply pair_eqb_eq in E. now subst.
+  - intros H. exists (u, v). split; [assumption|now apply pair_eqb_eq].
+Qed.
+
+Lemma add_iou_In e fs d u v x :
+  In ((u, v), x) (add_iou e fs d) <->
+  In (u, v) e /\ (exists t, dict_in d t u /\ dict_in d (t + 1) v) /\ x = iou_get u v (get_iou_dict fs).
+Proof.
+  unfold add_iou. cbv zeta. rewrite in_flat_map. split.
+  - intros (t & _ & H).
+    destruct (nfd_get (t + 1) d) as [next|] eqn:G1; [|destruct H].
+    destruct (nfd_get t d) as [prev|] eqn:G0; [|destruct H].
+    apply in_flat_map in H. destruct H as (u' & Hu' & H).
+    apply in_flat_map in H. destruct H as (v' & Hv' & H).
+    destruct (existsb (pair_eqb (u', v')) e) eqn:Ex; [|destruct H].
+    destruct H as [H|[]]. injection H as -> -> <-.
+    apply existsb_pair in Ex. repeat split; [assumption|].
+    exists t. unfold dict_in. rewrite G0, G1. split; [exists prev; auto|exists next; auto].
+  - intros (He & (t & (prev & G0 & Hu) & (next & G1 & Hv)) & ->). exists t. split.
+    + apply sort_In, nfd_get_key. congruence.
+    + rewrite G1, G0. apply in_flat_map. exists u. split; [assumption|].
+      apply in_flat_map. exists v. split; [assumption|].
+      apply existsb_pair in He. rewrite He. now left.
+Qed.
+
+(* C18_iou on the pipeline: every edge gets exactly one iou value, the true overlap *)
+Theorem seg_graph_iou : forall near fs g e ious,
+  (forall f f', In f fs -> In f' fs -> length f = length f') ->
+  compute_graph_from_seg near true fs = Some (g, e, ious) ->
+  forall u v, In (u, v) e ->
+    exists k f1 f2, nth_error fs k = Some f1 /\ nth_error fs (S k) = Some f2 /\
+      0 < u /\ 0 < v /\ In u f1 /\ In v f2 /\
+      forall x, In ((u, v), x) ious <-> x = iou_value u v f1 f2.
+Proof.
+  intros near fs g e ious _ C u v He.
+  pose proof (seg_graph_edges _ _ _ _ _ _ C u v) as Hedge.
+  unfold compute_graph_from_seg in C.
+  destruct (nodes_from_segmentation fs) as [[g0 d0]|] eqn:N; [|discriminate].
+  injection C as <- <- <-.
+  assert (unique_labels fs) as U by (apply nodes_from_seg_ok; congruence).
+  destruct (nodes_from_seg_spec _ _ _ N) as (Hg & _ & Hs).
+  pose proof He as He0.
+  apply Hedge in He. destruct He as (nu & nv & Hnu & Hnv & Eu & Ev & Et & _).
+  pose proof Hnu as Hnu'. pose proof Hnv as Hnv'.
+  apply Hg in Hnu'. destruct Hnu' as (k & f1 & l1 & E1 & Hl1 & Hin1 & ->).
+  apply Hg in Hnv'. destruct Hnv' as (k2 & f2 & l2 & E2 & Hl2 & Hin2 & ->).
+  cbn [n_id n_time] in *. subst l1 l2.
+  assert (k2 = S k) as -> by lia.
+  exists k, f1, f2. repeat split; try assumption.
+  - intros Hx. apply add_iou_In in Hx. destruct Hx as (_ & _ & ->).
+    apply (iou_get_frames fs k); try assumption. lia.
+  - intros ->. apply add_iou_In. repeat split.
+    + exact He0.
+    + exists (Z.of_nat k). split; apply Hs.
+      * eexists. split; [exact Hnu|]. split; reflexivity.
+      * eexists. split; [exact Hnv|]. split; [reflexivity|]. cbn [n_time]. lia.
+    + symmetry. apply (iou_get_frames fs k); try assumption. lia.
+Qed.
+
+Theorem seg_graph_no_iou : forall near fs g e ious,
+  compute_graph_from_seg near false fs = Some (g, e, ious) -> ious = [].
+Proof.
+  intros near fs g e ious. unfold compute_graph_from_seg.
+  destruct (nodes_from_segmentation fs) as [[g0 d0]|]; [|discriminate].
+  intros E. now injection E as _ _ <-.
+Qed.
+
+(* ------------------------------------------------------------------ *)
+(* statements in the form used by Props/C18.v                          *)
+(* ------------------------------------------------------------------ *)
+Lemma add_cand_edges_none near g : add_cand_edges near g [] = add_cand_edges near g (compute_nfd g).
+Proof. unfold add_cand_edges. destruct (compute_nfd g); reflexivity. Qed.
+
+Theorem cand_edges_spec_none : forall near g u v,
+  In (u, v) (add_cand_edges near g []) <->
+  exists nu nv, In nu g /\ In nv g /\ n_id nu = u /\ n_id nv = v /\
+                n_time nv = n_time nu + 1 /\ near u v = true.
+Proof. intros near g u v. rewrite add_cand_edges_none. apply cand_edges_spec. Qed.
+
+Lemma zipmul_nth : forall p s, length p = length s ->
+  length (zipmul p s) = length p /\ forall j, nth j (zipmul p s) 0 = nth j p 0 * nth j s 0.
+Proof.
+  induction p as [|x p IH]; intros [|y s] L; cbn [length] in L; try discriminate.
+  - split; [reflexivity|]. intros [|j]; reflexivity.
+  - destruct (IH s ltac:(lia)) as [Hl Hn]. cbn [zipmul length]. split; [now rewrite Hl|].
+    intros [|j]; cbn [nth]; [reflexivity|apply Hn].
+Qed.
+
+Theorem nodes_from_points_full : forall sc pts g d,
+  nodes_from_points_list sc pts = Some (g, d) ->
+  length g = length pts /\
+  NoDup (map n_id g) /\
+  d = compute_nfd g /\
+  (sc = None -> forall k t pos, nth_error pts k = Some (t :: pos) ->
+     nth_error g k = Some {| n_id := Z.of_nat k; n_time := t; n_pos := pos; n_area := 0 |}) /\
+  (forall s, sc = Some s -> forall k t pos, nth_error pts k = Some (t :: pos) ->
+     exists st ss, s = st :: ss /\ length pos = length ss /\
+     nth_error g k = Some {| n_id := Z.of_nat k; n_time := t * st; n_pos := zipmul pos ss; n_area := 0 |}).
+Proof.
+  intros sc pts g d N.
+  destruct (nodes_from_points_spec _ _ _ _ N) as (Hl & Hn & Hnd & Hd).
+  repeat split; try assumption.
+  - intros -> k t pos Hk. now rewrite (Hn _ _ Hk).
+  - intros s -> k t pos Hk.
+    assert (length (t :: pos) = length s) as L.
+    { destruct (Nat.eq_dec (length (t :: pos)) (length s)) as [E|Hne]; [exact E|exfalso].
+      assert (nodes_from_points_list (Some s) pts = None) as C.
+      { apply nodes_from_points_error. exists s, (t :: pos). repeat split; [|assumption].
+        eapply nth_error_In; eauto. }
+      congruence. }
+    destruct s as [|st ss]; [discriminate|]. exists st, ss. cbn [length] in L.
+    repeat split; [lia|]. rewrite (Hn _ _ Hk), scale_point_zipmul. reflexivity.
+Qed.
+
+Theorem cand_edges_full : forall (near : Z -> Z -> bool) (g : graph) (u v : Z),
+  (In (u, v) (add_cand_edges near g []) <->
+   exists nu nv, In nu g /\ In nv g /\ n_id nu = u /\ n_id nv = v /\
+                 n_time nv = n_time nu + 1 /\ near u v = true) /\
+  (In (u, v) (add_cand_edges near g (compute_nfd g)) <-> In (u, v) (add_cand_edges near g [])).
+Proof.
+  intros near g u v. split; [exact (cand_edges_spec_none near g u v)|].
+  rewrite (add_cand_edges_none near g). reflexivity.
+Qed.
